@@ -155,6 +155,8 @@ def analyse_lookahead(name: str) -> dict:
         info["problems"].append(f"each iteration must read exactly one token, unconditionally (found {len(reads)} read site(s))")
         return info
     tok = ("token", reads[0][0][4])
+    if reads[0][0][2][1:2] != (ctxp,):
+        info["problems"].append("the token is not read through this parse's context (read_token(context))")
     # the local queue: the list the token is appended to
     appends = [(n, c) for n, c in nf.iter_nodes(body) if n[0] == "mutate" and n[2] in ("append", "appendleft", "insert", "extend") and tok in n[3]]
     if len(appends) != 1 or appends[0][0][2] != "append" or nf.guards_in_ctx(appends[0][1]):
@@ -189,6 +191,8 @@ def analyse_lookahead(name: str) -> dict:
                 atoms.append(a)
             if a[2] != tok:
                 info["problems"].append(f"match_{n[2][0]} is applied to {fmt(a[2], I)}, not to the token just read")
+            if len(n[2]) > 2 and n[2][2] != ctxp:
+                info["problems"].append(f"match_{n[2][0]} is given {fmt(n[2][2], I)} as its context, not this parse's context")
     res_var = rv[2] if rv[0] == "loopout" and rv[1] == lid else None
     if res_var is None:
         info["problems"].append(f"the function does not return the look-ahead flag computed by the loop: {fmt(rv, I)}")
@@ -392,7 +396,8 @@ def analyse_wrapper() -> dict:
                 loops = nf.loops_in_ctx(adds[0][1])
                 if len(loops) == 1:
                     it = I.loops[loops[0]].get("iter", ("x",))
-                    ok = adds[0][0][2][2] == ("elem", loops[0]) and it[0] == "attr" and it[2] == "errors" and it[1][0] == "excvar" and not I.loops[loops[0]].get("conds")
+                    ok = adds[0][0][2][2] == ("elem", loops[0]) and it[0] == "attr" and it[2] == "errors" and it[1][0] == "excvar" and not I.loops[loops[0]].get("conds") \
+                        and adds[0][0][2][1] == ctxp
             if not ok:
                 out["problems"].append(("composite", "a composite exception contributes each of its errors, in order", len(adds)))
         hev, hex_ = simulate(h[2], {})
